@@ -123,6 +123,26 @@ impl Prop for C14 {
             ));
         }
         {
+            let ts: Vec<i64> = vec![0, 86399, -86400, 1_000_000_000, 2_147_483_648, 951_782_400, 253_402_300_799];
+            f.push(Family::new(
+                "zone-switch",
+                Mode::Full,
+                "one calculator and one session: 'x = N1 to date' under default zone Z1, then set_timezone(Z2), then 'N2 to date' (shown in Z2, the instant is N2) and 'x as unix' (still N1) for Z1, Z2 over [UTC, CET, EST, GMT+5:30] and 7 timestamps",
+                move |ch| {
+                    let (z1set, _, _) = ch.pick(&zones()).clone();
+                    let (z2set, label2, off2) = ch.pick(&zones()).clone();
+                    let z2 = z2set.unwrap_or("UTC");
+                    let n1 = *ch.pick(&ts);
+                    let n2 = *ch.pick(&ts);
+                    if ch.flag() {
+                        Some(LineCase::new(format!("x = {} to date\n{} to date", n1, n2), Expect::ValueOut(dt_val(n2, &label2, off2), print_dt(n2, off2, &label2), 0.0), &format!("zone-switch:{}", z2)).with_cfg(cfg_tz(z1set)))
+                    } else {
+                        Some(LineCase::new(format!("x = {} to date\nx as unix", n1), Expect::ValueOut(Val::Number(n1 as f64, Base::Raw), n1.to_string(), 0.0), &format!("zone-switch:{}", z2)).with_cfg(cfg_tz(z1set)))
+                    }
+                },
+            ));
+        }
+        {
             // dates as unix
             let mut dates: Vec<(i64, i64, i64)> = Vec::new();
             for y in [1i64, 1900, 1969, 1970, 2000, 2020, 2038, 2039, 2100, 9999, CLOCK_YEAR] {
@@ -184,6 +204,24 @@ impl Prop for C14 {
     }
 
     fn exec(&self, ctx: &mut Ctx, case: &LineCase) -> Verdict {
+        if let Some(z2) = case.tag.strip_prefix("zone-switch:") {
+            // line 1 on a session under the configured zone, set_timezone(z2) on the SAME calculator,
+            // line 2 on the same session; the verdict is about line 2
+            let mut lines = case.text.split('\n');
+            let (l1, l2) = (lines.next().unwrap_or(""), lines.next().unwrap_or(""));
+            let mut calc = ctx.fresh(&case.cfg);
+            let mut session = smartcalc::Session::new();
+            session.set_language(case.lang.clone());
+            let first = crate::obs::eval_session(&calc, &mut session, Some(l1));
+            let switched = calc.set_timezone(z2.to_string());
+            let second = crate::obs::eval_session(&calc, &mut session, Some(l2));
+            let single = LineCase { text: l2.to_string(), ..case.clone() };
+            let mut v = judge(&single, &second);
+            v.input = format!("{} ;; set_timezone({}) ;; {}", super::common::input_of(&LineCase { text: l1.to_string(), ..case.clone() }), z2, l2);
+            v.evals = 2;
+            v.observed = format!("{} ;; {:?} ;; {}", first.brief(), switched.is_ok(), second.brief());
+            return v;
+        }
         if case.tag != "datetime-as-unix" {
             return exec_line(ctx, case);
         }
